@@ -56,6 +56,11 @@ func init() {
 	specs["C08"] = dkvSpec(8000, 400000, "checkpoint", "verify-restore", "switch")
 	specs["C09"] = dkvSpec(2500, 100000, "gc", "retain", "verify-restore")
 	specs["C18"] = dkvSpec(8000, 400000)
+	specs["C20"] = spec{Harness: "H-BATCH", QuickRuns: 30000, QuickWallS: 50, ThoroughRuns: 1500000, ThoroughWallS: 1200, Chunk: 500,
+		MandatoryProbes: []string{"flush-size", "flush-timeout", "flush-explicit", "stale-token", "fetch"},
+		Real:            []string{"batching.EventBatcher", "batching.ReorderFetcher", "batching.ReorderBuffer", "clocks.SystemTimer on the bubble's fake clock"},
+		Stub:            []string{"fetch function (identity; latency = scheduler-chosen number of yields)", "consumer of Output (task with back-pressure)"},
+		Rule:            "each run = one seeded case (batch size 1-5, delay 0-20ms, buffer 1-4, fetch latency; 3-60 add/flush/sleep/stale-token operations; EventBatcher alone or behind a ReorderFetcher) under one seeded interleaving of adder, time-out flusher, fetch goroutines, consumer and clock advances; non-trivial = finished with >= 1 context switch and >= 1 probe (a flush or fetch happened); distinct = distinct hash of the released-task sequence"}
 }
 
 type agg struct {
